@@ -123,6 +123,7 @@ func (c *Collection) StartDCPFeed(
 		feed.events.push(nil) // push an eof
 	} else {
 		// Register the feed with the collection for future notifications:
+		verifPoint("feed.preregister", c.bucket.name, args.ID)
 		c.bucket.mutex.Lock()
 		c.bucket.collectionFeeds[c.DataStoreNameImpl] = append(c.bucket.collectionFeeds[c.DataStoreNameImpl], feed)
 		c.bucket.mutex.Unlock()
@@ -174,6 +175,7 @@ func (c *Collection) postEvent(event *sgbucket.FeedEvent) {
 	c.bucket.mutex.Lock()
 	feeds := c.bucket.collectionFeeds[c.DataStoreNameImpl]
 	c.bucket.mutex.Unlock()
+	verifPoint("post.snapshot", c.bucket.name, string(event.Key), event.Cas)
 
 	for _, feed := range feeds {
 		if feed != nil {
@@ -276,6 +278,7 @@ func (feed *dcpFeed) run() {
 
 	for {
 		if event := feed.events.pull(); event != nil {
+			verifPoint("feed.callback", feed.collection.bucket.name, feed.args.ID, event.Cas)
 			feed.callback(*event)
 			if event.Cas > feed.lastCas {
 				feed.lastCas = event.Cas
@@ -288,6 +291,7 @@ func (feed *dcpFeed) run() {
 		}
 	}
 	debug("%s stopping", feed)
+	verifPoint("feed.exit", feed.collection.bucket.name, feed.args.ID)
 
 	if feed.lastCasChanged {
 		if err := feed.writeCheckpoint(); err != nil {
